@@ -25,7 +25,7 @@ fn content(kind: usize, len: usize, r: &mut Prng) -> Vec<u8> {
 fn codec_job(seed: u64, j: usize, tier: Tier) -> Outcome {
     let mut o = Outcome::default();
     let mut r = Prng::new(seed ^ (j as u64).wrapping_mul(0x9E37_79B9_7F4A_7C15) ^ 0xC13);
-    let pairs = tier.pick(8, 64);
+    let pairs = tier.pick(32, 256);
     // address pair `j`
     let (s4, d4) = match j % pairs {
         0 => (Ipv4Addr::new(0, 0, 0, 0), Ipv4Addr::new(0, 0, 0, 0)),
@@ -170,7 +170,7 @@ pub fn run(tier: Tier, seed: u64, only: Option<String>) -> i32 {
     rep.rule = "codec: the six public checksum functions over every data length 0..=1024 x {zeros, 0xff.., carry maximising ff fe.., counting pattern, random} x 8 (thorough 64) IPv4 and IPv6 address pairs incl. all-zero and all-ones, compared with an independent RFC 1071 routine over pseudo header + data with the checksum field zeroed, then re-verified with the checksum inserted (sum 0xffff); lengths that do not reach the checksum field are only required not to panic, a buffer ending inside the field must be summed with the present half taken as zero; Paris: the datagrams dispatched by the real tracer in the 12 UDP/Paris cells over walked sequence ranges (thorough: every issuable sequence) x 3 port pairs are captured at send_to: checksum field = sequence and the datagram verifies; distinct by (address pair | cell, initial sequence, port pair)".into();
     rep.assumptions = vec!["the checksum field is taken as zero (the functions skip the word at the field's offset)".into()];
     rep.required_clauses = vec!["equals_rfc1071", "inserted_sums_to_ffff", "paris_checksum_is_sequence_and_verifies", "udp_probe_fields"];
-    let n1 = tier.pick(8, 64);
+    let n1 = tier.pick(32, 256);
     let n2 = 12 * tier.pick(4, 6);
     match only {
         Some(s) if s.starts_with('p') => rep.merge(paris_job(seed, s[1..].parse().unwrap_or(0), tier)),
